@@ -474,24 +474,26 @@ class VFG(object):
             return self.info.get(key, (None, None))
         return (None, None)
 
-    def back(self, starts, follow, stop=None, max_stack=4, limit=200000):
-        """Backward reachability with tuple-position matching.
+    def back(self, starts, follow, stop=None, max_stack=4, limit=400000, context=True, max_calls=3):
+        """Backward reachability with tuple-position matching and (optionally) call/return matching.
 
         follow(src, kind, info, dst) -> True/False : may the walk cross this edge.
         stop(node) -> True : do not expand predecessors of node (it is recorded as a boundary).
-        Returns Walk with .seen {(node, stack)}, .parent, .leaves (nodes without followed predecessors)."""
+        context=True: a walk that entered a callee through the return edge of call site c may leave it through the
+        parameter edges of c only (call-string of depth max_calls; deeper entries fall back to context-insensitive).
+        Returns Walk with .parent {(node, projection stack, call stack)}, .nodes, .plain, .leaves, .boundary."""
         from collections import deque
         w = Walk(self)
         dq = deque()
         for s in starts:
-            st = (s, ())
+            st = (s, (), ())
             if st not in w.parent:
                 w.parent[st] = None
                 dq.append(st)
         count = 0
         while dq:
             cur = dq.popleft()
-            node, stack = cur
+            node, stack, calls = cur
             count += 1
             if count > limit:
                 raise AnalysisError("value-flow walk exceeded %d states" % limit)
@@ -502,8 +504,12 @@ class VFG(object):
                 w.boundary.add(node)
                 continue
             expanded = False
+            if node[0] in ("f", "g"):
+                calls = ()        # heap / global storage is not call-stack disciplined: forget the call string
             for (src, kind, info) in self.preds.get(node, ()):
                 nstack = stack
+                ncalls = calls
+                k2 = kind
                 if kind == "proj":
                     if len(stack) >= max_stack:
                         continue
@@ -514,26 +520,33 @@ class VFG(object):
                             continue
                         nstack = stack[:-1]
                     else:
-                        # whole tuple wanted: its elements are parts of it
-                        if not follow(src, "elem", info, node):
-                            continue
-                        nstack = stack
-                        nxt = (src, nstack)
-                        expanded = True
-                        if nxt not in w.parent:
-                            w.parent[nxt] = (cur, "tup", info)
-                            dq.append(nxt)
-                        continue
-                if not follow(src, kind, info, node):
+                        k2 = "elem"     # whole tuple wanted: its elements are parts of it
+                if not follow(src, k2, info, node):
                     continue
+                if context and isinstance(info, tuple) and len(info) == 2:
+                    tag, site = info
+                    if tag == "call" and node[0] == "e" and src[0] == "r":
+                        # entering the callee through its return value
+                        ncalls = (calls + (site,)) if len(calls) < max_calls else calls + ("*",)
+                        if len(ncalls) > max_calls + 1:
+                            ncalls = ncalls[-(max_calls + 1):]
+                    elif tag in ("arg", "recv", "stararg", "call") and node[0] == "p":
+                        # leaving a function through a parameter towards a call site
+                        if calls:
+                            top = calls[-1]
+                            if top != "*" and top != site:
+                                continue
+                            ncalls = calls[:-1]
                 expanded = True
-                nxt = (src, nstack)
+                nxt = (src, nstack, ncalls)
                 if nxt not in w.parent:
                     w.parent[nxt] = (cur, kind, info)
                     dq.append(nxt)
-            if not expanded:
-                w.leaves.add(node)
+            if expanded:
+                w.expanded.add(node)
+            else:
                 w.leaf_states.add(cur)
+        w.leaves = set(n for n in w.nodes if n not in w.expanded and n not in w.boundary)
         return w
 
 
@@ -546,6 +559,7 @@ class Walk(object):
         self.leaf_states = set()
         self.boundary = set()
         self.plain = set()     # nodes visited with an empty projection stack (the value itself, not a part of it)
+        self.expanded = set()  # nodes with at least one followed predecessor in some state
 
     def path(self, node):
         """Hop chain (strings) from a start to node (first matching state)."""
@@ -560,6 +574,6 @@ class Walk(object):
             if p is None:
                 out.append(self.vfg.describe(st[0]))
                 break
-            out.append("%s   <-[%s%s]-" % (self.vfg.describe(st[0]), p[1], "" if p[2] is None else ":" + str(p[2])[:30]))
+            out.append("%s   <-[%s%s]-" % (self.vfg.describe(st[0]), p[1], "" if p[2] is None or isinstance(p[2], tuple) else ":" + str(p[2])[:30]))
             st = p[0]
         return out[::-1]
